@@ -56,10 +56,14 @@ def steps_of(acts):
     return steps
 
 
-def scenario_of(states, ndisp, i=0):
+def scenario_of(states, ndisp, i=0, portcap=0):
+    """portcap > 0: replay with a ToCUs port of that many entries (the model's PortCap; needs the verif hook)."""
     acts = [st.get('act') for st in states[1:] if isinstance(st.get('act'), dict)]
-    return {'cus': cus_of(states[0]['cfg']), 'ndisp': ndisp, 'overhead': [i % 3, (i // 3) % 2, 1 + i % 2],
-            'probe': True, 'steps': steps_of(acts)}
+    sc = {'cus': cus_of(states[0]['cfg']), 'ndisp': ndisp, 'overhead': [i % 3, (i // 3) % 2, 1 + i % 2],
+          'probe': True, 'steps': steps_of(acts)}
+    if portcap:
+        sc['portcap'] = portcap
+    return sc
 
 
 def kernel_of_map(recs):
@@ -312,6 +316,7 @@ def watch_first_fit(ctx):
 def run(ctx, selftest=False):
     thorough = ctx.tier == 'thorough'
     drv = ctx.go_build('c09')
+    drvh = build_with_hook(ctx)      # second binary: small ToCUs ports, greedy / partition placement
     D = ['dispatch']
     ff = watch_first_fit(ctx)
 
@@ -341,6 +346,16 @@ def run(ctx, selftest=False):
         raise vlib.Infra('could not parse the counterexample of DispatchScen_lead')
     lead_scen = scenario_of(ce, 2)
     lead_scen['probe'] = False
+    # ... and the deviation CompleteIgnoresParked (kernelCompleted() without the currWG.valid guard): with the bounded
+    # ToCUs port the model must answer a launch whose last work-group is still parked behind the full port
+    lead2 = ctx.tlc(D, 'DispatchScen.tla', 'DispatchScen_parked.cfg', workers=1, timeout=600, kind='lead', heap='2g')
+    if 'RspOnceAfterAll' not in lead2.violated:
+        raise vlib.Infra('model with CompleteIgnoresParked no longer violates RspOnceAfterAll:\n' + lead2.out[-1500:])
+    ce2 = [st for _, st in lead2.counterexample()]
+    if len(ce2) < 5 or 'cfg' not in ce2[0]:
+        raise vlib.Infra('could not parse the counterexample of DispatchScen_parked')
+    lead2_scen = scenario_of(ce2, 2, portcap=1)
+    lead2_scen['probe'] = False
 
     # 3. spec -> code: behaviours as scenarios
     nsim = 300 if thorough else 40
@@ -356,14 +371,16 @@ def run(ctx, selftest=False):
                            'EnvTakeMap', 'EnvComplete', 'EnvTakeRsp') if not seen.get(x)]
     if missing:
         raise vlib.Infra('actions never taken in %d simulated behaviours: %s' % (len(behs), missing))
-    scen = [scenario_of(b, 2 + i % 2, i) for i, b in enumerate(behs)]
+    # (DispatchScen.cfg has PortCap = 3: with the hook every second behaviour is replayed on a CP whose ToCUs port
+    #  holds 3 messages, so the behaviours' back-pressure on that port is real)
+    scen = [scenario_of(b, 2 + i % 2, i, portcap=3 if (drvh and i % 2) else 0) for i, b in enumerate(behs)]
     sfile = os.path.join(ctx.scratch, 'scen.json')
     json.dump(scen, open(sfile, 'w'))
     t1 = os.path.join(ctx.scratch, 'trace_scen.ndjson')
-    st1 = drive(ctx, drv, ['-scen', sfile], t1)
+    st1 = drive(ctx, drvh or drv, ['-scen', sfile], t1)
     ctx.log('replayed %d TLC behaviours: %s' % (len(scen), st1))
     ctx.sample({'scenario_from_TLC_behaviour': scen[0]['steps'][:10]})
-    parts = validate(ctx, t1, {'cmd': 'c09', 'scenarios': scen})
+    parts = validate(ctx, t1, {'cmd': 'c09', 'hook': bool(drvh), 'scenarios': scen})
 
     lfile = os.path.join(ctx.scratch, 'lead.json')
     json.dump([lead_scen], open(lfile, 'w'))
@@ -372,6 +389,22 @@ def run(ctx, selftest=False):
     ctx.log('replayed the model counterexample (completion batch spanning two dispatchers): %s' % st0)
     ctx.sample({'model_counterexample_as_scenario': lead_scen['steps']})
     parts += validate(ctx, t0, {'cmd': 'c09', 'scenarios': [lead_scen]})
+    stp = {}
+    if drvh:
+        # the parked-work-group counterexample on a CP with a one-entry port, then scripted runs that park a kernel's
+        # last work-group behind a full port (ports of 1-3 entries x round-robin / greedy / partition)
+        pfile = os.path.join(ctx.scratch, 'lead2.json')
+        json.dump([lead2_scen], open(pfile, 'w'))
+        tp = os.path.join(ctx.scratch, 'trace_park.ndjson')
+        argsp = ['-scen', pfile, '-park', 45 if thorough else 9, '-seed', ctx.seed]
+        stp = drive(ctx, drvh, argsp, tp)
+        ctx.log('last work-group parked behind a full ToCUs port (counterexample + scripted runs): %s' % stp)
+        if not stp.get('parked_runs'):
+            raise vlib.Infra('no scripted run reached the parked state: %s' % stp)
+        parts += validate(ctx, tp, {'cmd': 'c09', 'hook': True, 'scenarios': [lead2_scen], 'args': argsp[2:]})
+    else:
+        ctx.notes.append('back-pressure on the ToCUs port (parked work-groups) not exercised: needs the verif hook '
+                         'amd/timing/cp/verif_export.go (the builder\'s port holds 4096 messages)')
 
     # 4. code -> spec: seeded adversarial environments (finite fake CUs)
     nrand = 1000 if thorough else 150
@@ -406,12 +439,12 @@ def run(ctx, selftest=False):
 
     # 5b. greedy / partition placement (only with the verif hook fixes/C09-hook-dispatch-alg.diff in the tree)
     st5 = {}
-    drvh = build_with_hook(ctx)
     if drvh:
         t5 = os.path.join(ctx.scratch, 'trace_alg.ndjson')
-        args5 = ['-random', 600 if thorough else 60, '-launches', 6, '-seed', ctx.seed + 2000, '-alg', 'greedy,partition']
+        args5 = ['-random', 600 if thorough else 90, '-launches', 6, '-seed', ctx.seed + 2000,
+                 '-alg', 'round-robin,greedy,partition']
         st5 = drive(ctx, drvh, args5, t5)
-        ctx.log('greedy and partition placement (verif hook): %s' % st5)
+        ctx.log('round-robin / greedy / partition placement, ToCUs ports of 1-3 entries (verif hook): %s' % st5)
         parts += validate(ctx, t5, {'cmd': 'c09', 'hook': True, 'args': args5})
     else:
         ctx.notes.append('greedy/partition placement not exercised: amd/timing/cp/verif_export.go (fixes/C09-hook-dispatch-alg.diff) is not in the tree')
@@ -421,11 +454,13 @@ def run(ctx, selftest=False):
     distinct = {key(recs) for _, recs in parts}
     nt = len({key(recs) for _, recs in parts if nontrivial(recs)})
     ctx.sample({'trace_excerpt': parts[len(behs) + 2][1][:12] if len(parts) > len(behs) + 2 else parts[-1][1][:12]})
-    events = sum(s.get('events', 0) for s in (st0, st1, st2, st3, st4, st5, st6))
+    events = sum(s.get('events', 0) for s in (st0, st1, st2, st3, st4, st5, st6, stp))
     ctx.cov.update({'evaluations': len(parts), 'distinct_nontrivial': nt, 'distinct_traces': len(distinct), 'events_validated': events,
-                    'map_requests_checked': sum(s.get('ev_MapWG', 0) for s in (st0, st1, st2, st3, st4, st5, st6)),
+                    'map_requests_checked': sum(s.get('ev_MapWG', 0) for s in (st0, st1, st2, st3, st4, st5, st6, stp)),
                     'full_cu_probes': st1.get('probes', 0) + st2.get('probes', 0),
                     'scenario_steps': {'done': st1.get('steps_done', 0), 'skipped': st1.get('steps_skipped', 0)},
+                    'parked_last_work_group_runs': stp.get('parked_runs', 0),
+                    'model_lead_parked': {'violated': lead2.violated, 'length': len(ce2)},
                     'model_lead': {'violated': lead.violated, 'length': len(ce),
                                    'real_cp_panicked': st0.get('ev_Panic', 0) > 0}})
 
@@ -436,7 +471,7 @@ def run(ctx, selftest=False):
                              ff['examined'] - ff['conforming'], ff['examined']))
     # a run the driver had to cut off (the CP never went idle) whose recorded prefix was nevertheless accepted
     # is not a verdict
-    cut = sum(s.get('incomplete', 0) for s in (st0, st1, st2, st3, st4, st5, st6))
+    cut = sum(s.get('incomplete', 0) for s in (st0, st1, st2, st3, st4, st5, st6, stp))
     if cut and not ctx.violations:
         raise vlib.Infra('%d runs were cut off by the driver (CP never idle) without a rejected trace' % cut)
 
@@ -465,12 +500,13 @@ def replay(ctx, path):
         if not drv:
             raise vlib.Infra('this replay needs the verif hook ' + HOOK_FILE)
     t = os.path.join(ctx.scratch, 'replay.ndjson')
+    args = []
     if 'scenarios' in d:
         sfile = os.path.join(ctx.scratch, 'scen.json')
         json.dump(d['scenarios'], open(sfile, 'w'))
-        args = ['-scen', sfile]
-    else:
-        args = list(d['args'])
+        args += ['-scen', sfile]
+    if 'args' in d:
+        args += list(d['args'])
     drive(ctx, drv, args, t)
     before = len(ctx.violations)
     validate(ctx, t, d)
